@@ -418,6 +418,9 @@ FMTS = ["%.4f", "%.4f", "%.2f", "%.6f", "%.1f", "%d"]
 def gen_dataset(rng, nprng, n):
     ncol = rng.choice([1, 2, 2, 2, 3, 4])
     fmts = [rng.choice(FMTS) for _ in range(ncol)]
+    if rng.random() < 0.12:
+        # full binary64 precision (shortest round-trip decimal, up to 17 significant digits) in one column
+        fmts[rng.randrange(ncol)] = "%r"
     names = ["time (YYYY-MM-DD-HH)"] + [rng.choice(["significant wave height (m)", "zero-up-crossing period (s)", "wind speed (m/s)",
                                                     "col %d" % j, (rand_word(rng, 1, 12).replace('"', "").replace("'", "").strip() or "x")]) + ("" if rng.random() < 0.7 else " %d" % j)
                                         for j in range(ncol)]
@@ -439,7 +442,7 @@ def gen_dataset(rng, nprng, n):
     lines = [sep.join(names)]
     cells = []
     for i in range(n):
-        row = [f % (int(vals[i, j]) if f == "%d" else vals[i, j]) for j, f in enumerate(fmts)]
+        row = [f % (int(vals[i, j]) if f == "%d" else float(vals[i, j])) for j, f in enumerate(fmts)]
         cells.append(row)
         lines.append(sep.join([ts[i].strftime("%Y-%m-%d-%H")] + row))
     return {"content": "\n".join(lines) + "\n", "names": names, "fmts": fmts, "ts": ts, "cells": cells, "n": n, "sep": sep}
@@ -498,6 +501,12 @@ def oracle_read(case, res):
     if got.shape != want.shape or not np.array_equal(got, want):
         bad = np.argwhere(got != want) if got.shape == want.shape else []
         i = int(bad[0][0]) if len(bad) else -1
+        if len(bad) and all(case["fmts"][int(j)] == "%r" for _, j in bad) and \
+                all(abs(float(got[a, b]) - float(want[a, b])) <= 1e-11 * abs(float(want[a, b])) for a, b in bad):
+            # only full-precision fields are off, in the last digits (relative error up to ~1e-12 observed): pandas' default (fast) float parser
+            return dict(base, clause="values-full-precision"), \
+                "%d of %d full-precision fields are read back with the last digits off, e.g. row %d: file %s, DataFrame %r" % (
+                    len(bad), n, i, case["cells"][i][int(bad[0][1])], float(got[i, int(bad[0][1])]))
         return dict(base, clause="values"), "row %d reads %r, the file says %r" % (i, got[i].tolist() if i >= 0 else got.shape, case["cells"][i] if i >= 0 else want.shape)
     return None, None
 
@@ -889,7 +898,7 @@ def run(ctx):
             entries.append(("plot", i, coq_plot(c, r)))
     coq_rows_budget = 1500   # larger files: property oracle only (a 10^4-row file is a 1 MB Coq term)
     for i, (c, r) in enumerate(zip(read_cases, read_res)):
-        if "err" not in r and c["n"] <= coq_rows_budget:
+        if "err" not in r and c["n"] <= coq_rows_budget and "%r" not in c["fmts"]:
             entries.append(("read", i, coq_read(c, r)))
     nshards = max(12, len(entries) // 40)
     items, index = [], []
@@ -921,7 +930,7 @@ def run(ctx):
         ctx.mismatch("%s case %d" % (kind, i), "implementation raised, the model returns a result")
     ctx.cov["programs"] = 3
     ctx.notes["correspondence"] = {"cases_compared": ncmp, "mismatches": nmis, "implementation_raised": len(raised),
-                                   "reader_cases_by_oracle_only(rows > budget)": sum(1 for c in read_cases if c["n"] > coq_rows_budget)}
+                                   "reader_cases_by_oracle_only(rows > budget or full-precision column)": sum(1 for c in read_cases if c["n"] > coq_rows_budget or "%r" in c["fmts"])}
 
     # ---- search: concrete failing inputs
     seen = set()
@@ -980,6 +989,14 @@ def run(ctx):
                           {"function": c["function"], "history": [_compact_read(x) for x in cand]})
             continue
         seen.add(key(s))
+        # shrink to one data row when a single row already shows the failure
+        lines = c["content"].split("\n")
+        for r_i in range(min(c["n"], 1500)):
+            one = dict(c, content=lines[0] + "\n" + lines[1 + r_i] + "\n", ts=[c["ts"][r_i]], cells=[c["cells"][r_i]], n=1)
+            s1, msg1 = oracle_read(one, run_read(vu, one, "one"))
+            if s1 is not None and s1.get("clause") == s.get("clause"):
+                c, s, msg = one, s1, msg1
+                break
         rep = {"function": c["function"], "content": c["content"] if c["n"] <= 50 else "\n".join(c["content"].split("\n")[:51]) + "\n",
                "names": c["names"], "fmts": c["fmts"], "ts": [t.strftime("%Y-%m-%d-%H") for t in c["ts"][:50]], "cells": c["cells"][:50], "n": min(c["n"], 50), "sep": c["sep"]}
         ctx.violation(s, "read_ec_benchmark_dataset(file of %d rows, separator %r): %s" % (c["n"], c["sep"], msg), rep)
